@@ -4,14 +4,23 @@ From Coq Require Import ZifyBool.
 From AwVerif Require Import Base.Prelude Model.StoreBase Model.MemStore Model.PeeweeStore Model.Window
   Gen.GenWindow.
 
-(* datastore.py Bucket.get: the rounding of the window edges *)
-Lemma bridge_round_start : forall t, gen_round_start t = round_start t.
+(* datastore.py Bucket.get: an aware window edge (UTC instant, utcoffset) is converted to UTC and
+   rounded on the fields of that reading -- the statement-by-statement translation equals the
+   model for EVERY utcoffset, and is the function round_start / round_end of the instant.
+   (On a tree without the conversion -- before 49e3288 -- the generated definitions keep the
+   caller's offset and these lemmas do not prove.) *)
+Lemma bridge_round_start_tz : forall t off, gen_round_start t off = bucket_round_start_tz t off.
 Proof. reflexivity. Qed.
-Lemma bridge_round_end : forall t, gen_round_end t = round_end t.
+Lemma bridge_round_end_tz : forall t off, gen_round_end t off = bucket_round_end_tz t off.
 Proof. reflexivity. Qed.
-Lemma bridge_bucket_get_round : forall ws we,
-  (option_map gen_round_start ws, option_map gen_round_end we) = bucket_get_round ws we.
+Lemma bridge_round_start : forall t off, gen_round_start t off = round_start t.
 Proof. reflexivity. Qed.
+Lemma bridge_round_end : forall t off, gen_round_end t off = round_end t.
+Proof. reflexivity. Qed.
+Lemma bridge_bucket_get_round : forall ws we o1 o2,
+  (option_map (fun t => gen_round_start t o1) ws, option_map (fun t => gen_round_end t o2) we)
+  = bucket_get_round ws we.
+Proof. intros [ws|] [we|] o1 o2; reflexivity. Qed.
 (* Bucket.get_eventcount forwards the raw edges *)
 Lemma bridge_count_forwards_raw_edges : gen_count_forwards_raw_edges = true.
 Proof. reflexivity. Qed.
